@@ -558,7 +558,8 @@ pub fn run(cfg: &RunCfg, rep: &mut Report) {
             let mk = |rng: &mut Rng| loop {
                 let mut k = world.gen_xkey(rng, false, false, false);
                 if k.steps.is_empty() {
-                    let a = rng.below(5);
+                    // pairs on both sides of a change in the number of digits included (9/10, 99/100)
+                    let a = *rng.pick(&[0usize, 1, 2, 7, 8, 9, 98, 99, 999]);
                     let b = a + 1 + rng.below(5);
                     k.text = format!("{}/<{};{}>/*", k.text, a, b);
                     return k;
